@@ -311,7 +311,10 @@ pub fn generate(prop: &str, rng: &mut Rng, skip_fast: bool, run_index: u64) -> (
             };
             let mut p = Profile::draw(rng, &kinds_all);
             match prop {
-                "C05" => p.reuse = rng.chance(1, 2),
+                "C05" => {
+                    p.reuse = rng.chance(1, 2);
+                    p.submin = rng.chance(1, 3);
+                }
                 "C07" => {
                     p.query_pct = 70;
                     p.peek = rng.chance(1, 2);
